@@ -1,6 +1,6 @@
 \* C06 quick (liveness): weak fairness of push/pull between connected pairs and of watcher callbacks
-\* returning; faults bounded (1: partition, restart, duplicate delivery); (<>[]Healed) => <>[](all
-\* nodes read the same value and watchers caught up).
+\* returning; 1 fault (partition, restart, duplicate delivery); (<>[]Healed) => <>[](all nodes read the
+\* same value and watchers caught up).
 CONSTANTS
   N = 2
   NI = 1
@@ -16,6 +16,11 @@ CONSTANTS
   AllowGarbage = FALSE
   AllowPartition = TRUE
   AllowJunkPP = FALSE
+  GateNodes = {}
+  InboxCap = 1
+  VersionTest = TRUE
+  MaxDel = 0
+  ObsoleteTimeout = 1
   ConsumeNet = TRUE
   Ideal = TRUE
   Ghost = FALSE
